@@ -28,9 +28,6 @@ import (
 	"encoding/base64"
 	"encoding/json"
 	"fmt"
-	"io"
-	"mime"
-	"mime/multipart"
 	"net/http"
 	"net/url"
 	"os"
@@ -68,6 +65,12 @@ type c02Rev struct {
 	leaf     bool
 	current  bool // the winning revision
 	conflict bool // written with new_edits=false
+	// set when a child of this revision was written while ANOTHER revision was the document's current one:
+	// the channels of that other revision (db/crud.go backs the parent's body up with them)
+	wrongChans    []string
+	hasWrong      bool
+	hadChild      bool
+	bornNonWinner bool // was not the winning revision right after it was written
 }
 
 type c02Doc struct {
@@ -108,14 +111,15 @@ type c02World struct {
 }
 
 type c02Env struct {
-	t     *testing.T
-	rec   *vRecorder
-	rnd   *vRand
-	failN map[string]int
-	nreq  int
-	dbgN  int
-	revN  uint64
-	attN  uint64
+	t        *testing.T
+	rec      *vRecorder
+	rnd      *vRand
+	failN    map[string]int
+	nreq     int
+	dbgN     int
+	adminToo map[string]int
+	revN     uint64
+	attN     uint64
 }
 
 func (e *c02Env) fail(monitor, signature string, input any, detail string) {
@@ -409,6 +413,13 @@ func (w *c02World) addDoc(steps []c02Step) *c02Doc {
 			r.parent = cur
 			r.deleted = true
 			resp = w.admin("PUT", "/{{.keyspace}}/"+d.id+"?rev="+cur.id, w.bodyJSON(r, nil))
+		case "delat":
+			par := d.revs[st.par]
+			r.parent = par
+			r.deleted = true
+			r.marker = ""
+			r.chans = nil
+			resp = w.admin("DELETE", "/{{.keyspace}}/"+d.id+"?rev="+par.id, "")
 		case "conf":
 			par := d.revs[st.par]
 			r.parent = par
@@ -432,11 +443,88 @@ func (w *c02World) addDoc(steps []c02Step) *c02Doc {
 		if r.id == "" {
 			r.id = c02RespRev(resp.BodyBytes())
 		}
+		if p := r.parent; p != nil && !p.hadChild {
+			// the parent's body is backed up when its FIRST child is written (later children only touch the backup)
+			p.hadChild = true
+			if cur != nil && p != cur {
+				p.hasWrong = true
+				p.wrongChans = append([]string{}, cur.chans...)
+			}
+		}
 		d.revs = append(d.revs, r)
 		w.revs = append(w.revs, r)
 		w.recomputeFlags(d)
+		r.bornNonWinner = !r.current
+		w.stampCase(d, r, cur)
 	}
 	return d
+}
+
+// attachment names on the document's current revision right after a write, against the write-path model
+func (w *c02World) stampCase(d *c02Doc, r, prevCur *c02Rev) {
+	now := w.currentOf(d)
+	if r.parent == nil || prevCur == nil || now == nil || now.deleted || r.deleted {
+		return
+	}
+	// read the document itself: the revision cache entry of the current revision may predate the write
+	col, ctx := w.rt.GetSingleTestDatabaseCollection()
+	doc, err := col.GetDocument(ctx, d.id, db.DocUnmarshalAll)
+	if err != nil || doc == nil {
+		return
+	}
+	m := struct{ Atts db.AttachmentsMeta }{doc.Attachments()}
+	ids := func(names []string) string {
+		var out []uint64
+		for _, n := range names {
+			out = append(out, w.attNameID(n))
+		}
+		sort.Slice(out, func(i, j int) bool { return out[i] < out[j] })
+		return cqNList(out)
+	}
+	names := func(x *c02Rev) []string {
+		var out []string
+		for _, a := range x.atts {
+			out = append(out, a.name)
+		}
+		return out
+	}
+	var obs []string
+	for n := range m.Atts {
+		obs = append(obs, n)
+	}
+	winner := names(prevCur)
+	if r.current {
+		winner = names(r)
+	}
+	coq := fmt.Sprintf("CStamp %s %s %s %s", ids(winner), ids(names(r)), cqBool(r.current), ids(obs))
+	w.e.rec.Case("write_path", "stamp_atts", coq, map[string]any{"world": w.tag, "doc": d.id, "new_rev": r.id, "new_rev_wins": r.current, "new_rev_attachments": names(r),
+		"winner_attachments": winner, "observed_on_current": obs}, !r.current)
+}
+
+// channels the revision cache reports for a superseded revision once it has to be loaded from its backup
+func (w *c02World) backupCases() {
+	col, ctx := w.rt.GetSingleTestDatabaseCollection()
+	for _, r := range w.revs {
+		if r.leaf || r.deleted {
+			continue
+		}
+		w.rt.GetDatabase().FlushRevisionCacheForTest()
+		dr, err := col.GetRevisionCacheForTest().Get(ctx, r.doc.id, r.id, true)
+		if err != nil || dr.BodyBytes == nil || dr.Removed {
+			continue
+		}
+		var obs []string
+		for c := range dr.Channels {
+			obs = append(obs, c)
+		}
+		wc := r.chans
+		if r.hasWrong {
+			wc = r.wrongChans
+		}
+		coq := fmt.Sprintf("CBackup %s %s %s %s", w.cqChans(wc), w.cqChans(r.chans), cqBool(!r.hasWrong), w.cqChans(obs))
+		w.e.rec.Case("write_path", "backup_channels", coq, map[string]any{"world": w.tag, "doc": r.doc.id, "rev": r.id, "rev_channels": r.chans,
+			"winner_channels_when_child_written": wc, "parent_was_winner": !r.hasWrong, "observed": obs}, r.hasWrong)
+	}
 }
 
 // read back digests and the current version as the administrator; cross-check the winner
@@ -558,6 +646,13 @@ func (w *c02World) canonical() {
 		{{op: "new", chans: S("C"), atts: S("a.bin")}, {op: "upd", chans: S("C"), atts: S("=a.bin")}, {op: "del"}},
 		{{op: "new", chans: S("D")}, {op: "upd", chans: S("E"), atts: S("x.bin")}, {op: "conf", par: 1, chans: S("A"), atts: S("y.bin"), hi: true}},
 	}
+	// a revision on a losing branch gets a child (conflicting write / tombstone of the losing branch) while the
+	// winner sits in another channel; a losing revision carries an attachment of its own
+	scripts = append(scripts,
+		[]c02Step{{op: "new", chans: S("A")}, {op: "upd", chans: S("A")}, {op: "conf", par: 0, chans: S("D"), hi: false}, {op: "conf", par: 2, chans: S("D"), hi: false}},
+		[]c02Step{{op: "new", chans: S("B")}, {op: "upd", chans: S("B")}, {op: "conf", par: 0, chans: S("D"), hi: false}, {op: "delat", par: 2}},
+		[]c02Step{{op: "new", chans: S("A")}, {op: "upd", chans: S("A")}, {op: "conf", par: 0, chans: S("D"), atts: S("z.bin"), hi: false}},
+	)
 	for _, s := range scripts {
 		w.addDoc(s)
 	}
@@ -578,9 +673,9 @@ func (w *c02World) random(nUsers, nDocs int) {
 		}
 		return out
 	}
-	w.roles = []*c02Role{{name: "r1", explicit: pick(35, 8), computed: pick(20, 4)}, {name: "r2", explicit: pick(25, 8), computed: pick(30, 0)}}
+	w.roles = []*c02Role{{name: "r1", explicit: pick(35, 8), computed: pick(20, 0)}, {name: "r2", explicit: pick(25, 8), computed: pick(30, 0)}}
 	for i := 0; i < nUsers; i++ {
-		u := &c02User{name: fmt.Sprintf("u%d", i+1), explicit: pick(30, 6), computed: pick(20, 3)}
+		u := &c02User{name: fmt.Sprintf("u%d", i+1), explicit: pick(30, 6), computed: pick(20, 0)} // access() cannot grant "*" (sync_runner: RemoveStar)
 		for _, r := range w.roles {
 			switch rnd.Intn(4) {
 			case 0:
@@ -679,9 +774,23 @@ func (w *c02World) userReq(u *c02User, method, path, body string, hdr map[string
 	return &c02Resp{code: resp.Code, hdr: resp.Header(), body: b, raw: raw.Bytes()}
 }
 
+func (w *c02World) adminReq(method, path, body string, hdr map[string]string) *c02Resp {
+	h := map[string]string{}
+	for k, v := range hdr {
+		h[k] = v
+	}
+	if _, ok := h["Accept"]; !ok {
+		h["Accept"] = "application/json"
+	}
+	resp := w.rt.SendAdminRequestWithHeaders(method, path, body, h)
+	return &c02Resp{code: resp.Code, hdr: resp.Header(), body: resp.BodyBytes()}
+}
+
 type c02Needle struct {
 	text []byte
 	what string
+	rev  *c02Rev
+	att  bool
 }
 
 // everything that must not occur in a response to this user
@@ -690,7 +799,7 @@ func (w *c02World) forbiddenNeedles(u *c02User) (content []c02Needle, docIDs []c
 	for _, r := range w.revs {
 		ok := w.mayDisclose(u, r.chans)
 		if r.marker != "" && !ok {
-			content = append(content, c02Needle{[]byte(r.marker), fmt.Sprintf("body of %s %s chans=%v", r.doc.id, r.id, r.chans)})
+			content = append(content, c02Needle{[]byte(r.marker), fmt.Sprintf("body of %s %s chans=%v", r.doc.id, r.id, r.chans), r, false})
 		}
 		for _, a := range r.atts {
 			if ok {
@@ -705,15 +814,15 @@ func (w *c02World) forbiddenNeedles(u *c02User) (content []c02Needle, docIDs []c
 			}
 			attOK[a.id] = true // once
 			what := fmt.Sprintf("attachment %s of %s %s chans=%v", a.name, r.doc.id, r.id, r.chans)
-			content = append(content, c02Needle{[]byte(a.content), what + " (bytes)"}, c02Needle{[]byte(a.b64), what + " (base64)"})
+			content = append(content, c02Needle{[]byte(a.content), what + " (bytes)", r, true}, c02Needle{[]byte(a.b64), what + " (base64)", r, true})
 			if a.digest != "" {
-				content = append(content, c02Needle{[]byte(a.digest), what + " (digest)"})
+				content = append(content, c02Needle{[]byte(a.digest), what + " (digest)", r, true})
 			}
 		}
 	}
 	for _, d := range w.docs {
 		if !w.everVisible(u, d) {
-			docIDs = append(docIDs, c02Needle{[]byte(d.id), "document " + d.id})
+			docIDs = append(docIDs, c02Needle{[]byte(d.id), "document " + d.id, nil, false})
 		}
 	}
 	return
@@ -728,8 +837,15 @@ func (w *c02World) scan(u *c02User, surface, flags string, request string, raw [
 	}
 	for _, n := range content {
 		if bytes.Contains(raw, n.text) {
-			w.e.fail("no_disclosure", surface+":"+flags, map[string]any{"world": w.tag, "named_collection": w.named, "user": u.name, "user_channels": c02Keys(w.effective(u)),
-				"request": request, "cache": pass, "leaked": n.what}, "response contains "+string(n.text)+": "+c02Short(raw))
+			sig := surface + ":" + flags
+			if !n.att && n.rev.hasWrong && w.mayDisclose(u, n.rev.wrongChans) {
+				// one stable signature for the known kind of input, whatever the endpoint
+				sig = "superseded-nonwinning-revision-authorised-by-winner-channels"
+			} else if n.att && n.rev.bornNonWinner {
+				sig = "nonwinning-revision-attachments-stamped-on-current-revision"
+			}
+			w.e.fail("no_disclosure", sig, map[string]any{"world": w.tag, "named_collection": w.named, "user": u.name, "user_channels": c02Keys(w.effective(u)),
+				"request": request, "surface": surface + ":" + flags, "cache": pass, "leaked": n.what}, "response contains "+string(n.text)+": "+c02Short(raw))
 		}
 	}
 	if listing {
@@ -849,7 +965,7 @@ func (w *c02World) observeRev(docID, ver string, target *c02Rev) (term string, c
 }
 
 // record one observed (user, revision, request, surface) decision: Coq case + monitors
-func (w *c02World) record(u *c02User, r *c02Rev, ver string, surf, surfName, flags, request string, obs c02Wire, attName string) {
+func (w *c02World) record(u *c02User, r *c02Rev, ver string, surf, surfName, flags, request string, obs c02Wire, attName string, adminObs ...func() c02Wire) {
 	pass := "warm"
 	if w.cold {
 		pass = "cold"
@@ -880,13 +996,22 @@ func (w *c02World) record(u *c02User, r *c02Rev, ver string, surf, surfName, fla
 			}
 			okc = (has && obs.status == 0 && obs.content) || (!has && obs.status == 2)
 		}
+		if !okc && len(adminObs) > 0 && adminObs[0]() == obs {
+			// the administrator gets the same answer: not an access decision (e.g. attachment metadata lost)
+			okc = true
+			w.e.adminToo[fmt.Sprintf("%s %s -> %s; history=%s", surfName, request, obs, w.describe(r.doc))]++
+		}
 		if !okc {
-			w.e.fail("read_complete", surfName+":"+flags, in, "current revision in a channel of the user was not delivered")
+			w.e.fail("read_complete", surfName+":"+flags, in, "current revision in a channel of the user was not delivered; history="+w.describe(r.doc))
 		}
 	}
 	term, chansOK := w.observeRev(r.doc.id, ver, r)
 	if !chansOK {
-		w.e.fail("cache_channels", surfName, in, "revision cache reports channels beyond those assigned to the revision: "+term)
+		sig := surfName
+		if r.hasWrong {
+			sig = "superseded-nonwinning-revision-authorised-by-winner-channels"
+		}
+		w.e.fail("cache_channels", sig, in, "revision cache reports channels beyond those assigned to the revision: "+term+" history="+w.describe(r.doc))
 	}
 	q := "(mkReq " + cqBool(ver != "") + " false)"
 	coq := fmt.Sprintf("CRead %s %s %s %s %s %s", cqBool(w.named), w.cqUser(u), term, q, surf, obs.String())
@@ -924,7 +1049,6 @@ func (w *c02World) getFlags(d *c02Doc, quick bool) []c02Flag {
 			c02Flag{"revs_limit+revs_from+show_cv", "revs=true&revs_limit=2&show_cv=true&revs_from=" + since, nil},
 			c02Flag{"atts_since", "attachments=true&atts_since=" + since, nil},
 			c02Flag{"multipart", "", map[string]string{"Accept": "multipart/related"}},
-			c02Flag{"multipart+gzip-parts", "attachments=true", map[string]string{"Accept": "multipart/related", "X-Accept-Part-Encoding": "gzip"}},
 		)
 	}
 	return fl
@@ -948,13 +1072,19 @@ func (w *c02World) docReads(u *c02User, d *c02Doc, quick bool) {
 		p := c02Join(base0, f.query)
 		resp := w.userReq(u, "GET", p, "", f.hdr)
 		w.scan(u, "get_current", f.name, "GET "+p, resp.raw, false)
-		w.record(u, cur, "", "SGet", "get", f.name, "GET "+p, c02Classify(resp.code, resp.body, cur.marker), "")
+		w.record(u, cur, "", "SGet", "get", f.name, "GET "+p, c02Classify(resp.code, resp.body, cur.marker), "", func() c02Wire {
+			a := w.adminReq("GET", p, "", f.hdr)
+			return c02Classify(a.code, a.body, cur.marker)
+		})
 		// every revision by id
 		for _, r := range d.revs {
 			p := c02Join(base0+"?rev="+r.id, f.query)
 			resp := w.userReq(u, "GET", p, "", f.hdr)
 			w.scan(u, "get_rev", f.name, "GET "+p, resp.raw, false)
-			w.record(u, r, r.id, "SGet", "get", f.name, "GET "+p, c02Classify(resp.code, resp.body, r.marker), "")
+			w.record(u, r, r.id, "SGet", "get", f.name, "GET "+p, c02Classify(resp.code, resp.body, r.marker), "", func() c02Wire {
+				a := w.adminReq("GET", p, "", f.hdr)
+				return c02Classify(a.code, a.body, r.marker)
+			})
 		}
 		// current revision by version vector entry
 		if cur.cv != "" {
@@ -1025,27 +1155,34 @@ func (w *c02World) docReads(u *c02User, d *c02Doc, quick bool) {
 		}
 	}
 	for n := range names {
+		// own content of the named attachment if the revision has it, else whatever attachment bytes came back
 		find := func(r *c02Rev) string {
 			for _, a := range r.atts {
 				if a.name == n {
 					return a.content
 				}
 			}
-			return ""
+			return "ATT" + w.tag + "n"
 		}
 		for _, f := range []c02Flag{{"plain", "", nil}, {"meta", "meta=true", nil}, {"content_encoding=false", "content_encoding=false", nil}} {
 			p := c02Join(base0+"/"+n, f.query)
 			resp := w.userReq(u, "GET", p, "", f.hdr)
 			w.scan(u, "attachment_current", f.name, "GET "+p, resp.raw, false)
 			if f.name != "meta" {
-				w.record(u, cur, "", fmt.Sprintf("(SAtt %d)", w.attNameID(n)), "attachment", f.name, "GET "+p, c02Classify(resp.code, resp.body, find(cur)), n)
+				w.record(u, cur, "", fmt.Sprintf("(SAtt %d)", w.attNameID(n)), "attachment", f.name, "GET "+p, c02Classify(resp.code, resp.body, find(cur)), n, func() c02Wire {
+					a := w.adminReq("GET", p, "", f.hdr)
+					return c02Classify(a.code, a.body, find(cur))
+				})
 			}
 			for _, r := range d.revs {
 				p := c02Join(base0+"/"+n+"?rev="+r.id, f.query)
 				resp := w.userReq(u, "GET", p, "", f.hdr)
 				w.scan(u, "attachment_rev", f.name, "GET "+p, resp.raw, false)
 				if f.name != "meta" {
-					w.record(u, r, r.id, fmt.Sprintf("(SAtt %d)", w.attNameID(n)), "attachment", f.name, "GET "+p, c02Classify(resp.code, resp.body, find(r)), n)
+					w.record(u, r, r.id, fmt.Sprintf("(SAtt %d)", w.attNameID(n)), "attachment", f.name, "GET "+p, c02Classify(resp.code, resp.body, find(r)), n, func() c02Wire {
+						a := w.adminReq("GET", p, "", f.hdr)
+						return c02Classify(a.code, a.body, find(r))
+					})
 				}
 			}
 		}
@@ -1227,7 +1364,7 @@ type c02Change struct {
 func (w *c02World) changes(u *c02User, quick bool) {
 	type variant struct {
 		name, method, query, body string
-		include                  bool
+		include                   bool
 	}
 	vs := []variant{
 		{"plain", "GET", "since=0", "", false},
@@ -1318,6 +1455,12 @@ func c02Wait(wg *sync.WaitGroup, d time.Duration) bool {
 
 // getAttachment on the connection; served = a non-error response
 func (w *c02World) blipGetAtt(bt *BlipTester, u *c02User, docID, digest, why string) (served bool) {
+	served, _ = w.blipGetAtt2(bt, u, docID, digest, why)
+	return served
+}
+
+// obs is the Coq observation: served, refused by the gate (403), or anything else (None: never what the model says)
+func (w *c02World) blipGetAtt2(bt *BlipTester, u *c02User, docID, digest, why string) (served bool, obs string) {
 	rq := blip.NewRequest()
 	rq.SetProfile(db.MessageGetAttachment)
 	rq.Properties[db.GetAttachmentDigest] = digest
@@ -1326,7 +1469,7 @@ func (w *c02World) blipGetAtt(bt *BlipTester, u *c02User, docID, digest, why str
 	}
 	bt.addCollectionProperty(rq)
 	if !bt.sender.Send(rq) {
-		return false
+		return false, "None"
 	}
 	w.e.nreq++
 	resp := rq.Response()
@@ -1340,7 +1483,13 @@ func (w *c02World) blipGetAtt(bt *BlipTester, u *c02User, docID, digest, why str
 		w.e.fail("attachment_gate", why, map[string]any{"world": w.tag, "named_collection": w.named, "user": u.name, "user_channels": c02Keys(w.effective(u)), "docID": docID, "digest": digest},
 			"getAttachment served outside the window of a rev message carrying it: "+c02Short(body))
 	}
-	return served
+	obs = "Some " + cqBool(served)
+	if !served && resp.Properties["Error-Code"] != "403" {
+		obs = "None"
+		w.e.fail("attachment_gate", "refusal-is-not-403", map[string]any{"world": w.tag, "user": u.name, "docID": docID, "digest": digest, "when": why, "properties": fmt.Sprint(resp.Properties)},
+			"getAttachment outside the allow-list was not refused by the gate (403) but answered: "+c02Short(body))
+	}
+	return served, obs
 }
 
 func (w *c02World) attOwner(a *c02Att) *c02Rev {
@@ -1375,9 +1524,9 @@ func (w *c02World) blip(u *c02User, quick bool, protocol db.CBMobileSubprotocolV
 				if a.digest == "" {
 					continue
 				}
-				served := w.blipGetAtt(bt, u, r.doc.id, a.digest, "fresh-connection")
+				_, o := w.blipGetAtt2(bt, u, r.doc.id, a.digest, "fresh-connection")
 				ops = append(ops, fmt.Sprintf("PGet %d", a.id))
-				obs = append(obs, "Some "+cqBool(served))
+				obs = append(obs, o)
 			}
 		}
 		if len(ops) > 0 {
@@ -1479,9 +1628,9 @@ func (w *c02World) blip(u *c02User, quick bool, protocol db.CBMobileSubprotocolV
 				var res []string
 				res = append(res, "None")
 				get := func(a *c02Att, docID, why string) {
-					served := w.blipGetAtt(bt, u, docID, a.digest, why)
+					_, o := w.blipGetAtt2(bt, u, docID, a.digest, why)
 					ops = append(ops, fmt.Sprintf("PGet %d", a.id))
-					res = append(res, "Some "+cqBool(served))
+					res = append(res, o)
 				}
 				for _, a := range rev.atts {
 					get(a, rev.doc.id, "while-rev-outstanding")
@@ -1500,7 +1649,7 @@ func (w *c02World) blip(u *c02User, quick bool, protocol db.CBMobileSubprotocolV
 					ops = append(ops, "PReply 0")
 					res = append(res, "None")
 					go func(a *c02Att, docID string, ops, res []string) {
-						served := true
+						served, o := true, "None"
 						for i := 0; i < 100 && served; i++ {
 							time.Sleep(10 * time.Millisecond)
 							why := "after-reply"
@@ -1508,13 +1657,13 @@ func (w *c02World) blip(u *c02User, quick bool, protocol db.CBMobileSubprotocolV
 								why = "after-reply-final"
 							}
 							mu.Lock()
-							served = w.blipGetAtt(bt, u, docID, a.digest, why)
+							served, o = w.blipGetAtt2(bt, u, docID, a.digest, why)
 							mu.Unlock()
 						}
 						mu.Lock()
 						defer mu.Unlock()
 						ops = append(ops, fmt.Sprintf("PGet %d", a.id))
-						res = append(res, "Some "+cqBool(served))
+						res = append(res, o)
 						coq := fmt.Sprintf("CGate %s %s %s %s", cqBool(w.named), w.cqUser(u), cqList(ops), cqList(res))
 						w.e.rec.Case("blip", "gate_trace", coq, map[string]any{"world": w.tag, "user": u.name, "protocol": proto, "doc": docID, "ops": ops, "observed": res}, true)
 						revsDone.Done()
@@ -1616,6 +1765,9 @@ func (w *c02World) run(quick bool) {
 	w.rt.WaitForPendingChanges()
 	w.seeStream()
 	for _, cold := range []bool{false, true} {
+		if cold {
+			w.backupCases() // flushes the revision cache: after the warm pass
+		}
 		w.cold = cold
 		for _, u := range w.users {
 			for _, d := range w.docs {
@@ -1637,7 +1789,7 @@ func TestVerifC02(t *testing.T) {
 	rec := vNewRecorder(t, "C02", "C02.C02_Corr")
 	defer rec.Finish()
 	base.SetUpTestLogging(t, base.LevelError, base.KeyNone)
-	e := &c02Env{t: t, rec: rec, rnd: vNewRand(vSeed()), failN: map[string]int{}}
+	e := &c02Env{t: t, rec: rec, rnd: vNewRand(vSeed()), failN: map[string]int{}, adminToo: map[string]int{}}
 	thorough := vThorough()
 	type plan struct {
 		tag       string
@@ -1662,6 +1814,17 @@ func TestVerifC02(t *testing.T) {
 		w.rt.Close()
 	}
 	rec.Extra("requests", e.nreq)
+	{
+		var keys []string
+		for k := range e.adminToo {
+			keys = append(keys, k)
+		}
+		sort.Strings(keys)
+		if len(keys) > 4 {
+			keys = keys[:4]
+		}
+		rec.Extra("current_revision_unreadable_for_admin_too", map[string]any{"count": len(e.adminToo), "samples": keys})
+	}
 	rec.Extra("worlds", len(plans))
 	rec.Extra("enterprise_edition", base.IsEnterpriseEdition())
 	rec.Extra("harness_seconds", time.Since(t0).Seconds())
@@ -1672,7 +1835,4 @@ func TestVerifC02(t *testing.T) {
 	if !base.IsEnterpriseEdition() {
 		rec.Extra("not_exercised", "replicator2 GET and BLIP deltas (enterprise edition only; this build is the community edition)")
 	}
-	_ = io.Discard
-	_ = mime.ParseMediaType
-	_ = multipart.NewReader
 }
